@@ -152,7 +152,7 @@ package bufimagemodify
 //
 //@ func modifyGoPackage(sweeper, imageFile, config, options) (err)
 //@   property C18
-//@   modifies heap, ghost.cbCalls, ghost.cbArgs, ghost.cbArg0, ghost.cbArg1, ghost.cbArg2, ghost.cbArg3, ghost.markCount, ghost.n_markedPath
+//@   modifies heap, ghost.cbCalls, ghost.cbArgs, ghost.cbArg0, ghost.cbArg1, ghost.cbArg2, ghost.cbArg3, ghost.markCount, ghost.n_markedPath, ghost.versionConsulted
 //@   requires validRel(imageFile.Path()) && (forall i int :: 0 <= i && i < len(config.Disables()) ==> config.Disables()[i].Path() == "" || validRel(config.Disables()[i].Path())) && (forall i int :: 0 <= i && i < len(config.Overrides()) ==> config.Overrides()[i].Path() == "" || validRel(config.Overrides()[i].Path()))
 //@   reveal n_stringOptionWiring
 //@   requires own-path-table: len(goPackagePath) == 2 && goPackagePath[0] == 8 && goPackagePath[1] == 11
@@ -167,7 +167,7 @@ package bufimagemodify
 //
 //@ func modifyObjcClassPrefix(sweeper, imageFile, config, options) (err)
 //@   property C18
-//@   modifies heap, ghost.cbCalls, ghost.cbArgs, ghost.cbArg0, ghost.cbArg1, ghost.cbArg2, ghost.cbArg3, ghost.markCount, ghost.n_markedPath
+//@   modifies heap, ghost.cbCalls, ghost.cbArgs, ghost.cbArg0, ghost.cbArg1, ghost.cbArg2, ghost.cbArg3, ghost.markCount, ghost.n_markedPath, ghost.versionConsulted
 //@   requires validRel(imageFile.Path()) && (forall i int :: 0 <= i && i < len(config.Disables()) ==> config.Disables()[i].Path() == "" || validRel(config.Disables()[i].Path())) && (forall i int :: 0 <= i && i < len(config.Overrides()) ==> config.Overrides()[i].Path() == "" || validRel(config.Overrides()[i].Path()))
 //@   reveal n_stringOptionWiring
 //@   requires own-path-table: len(objcClassPrefixPath) == 2 && objcClassPrefixPath[0] == 8 && objcClassPrefixPath[1] == 36
@@ -328,6 +328,15 @@ package bufimagemodify
 //@   modifies heap, ghost.cbCalls, ghost.cbArgs, ghost.cbArg0, ghost.cbArg1, ghost.cbArg2, ghost.cbArg3, ghost.sweepCount, ghost.fail, ghost.wfail
 //@   ensures disabled-untouched: !config.Enabled() ==> err == nil && ghost.cbCalls == old(ghost.cbCalls) && ghost.cbArgs == old(ghost.cbArgs) && ghost.sweepCount == old(ghost.sweepCount)
 //@   ensures wkt-never-modified: forall x ref :: x in ghost.cbArg1 && !(x in old(ghost.cbArg1)) ==> (exists i int :: 0 <= i && i < len(image.Files()) && x == image.Files()[i] && !datawkt.Exists(image.Files()[i].Path()))
+//@   ensures only-listed-called: forall f ref :: ghost.cbCalls[f] != old(ghost.cbCalls)[f] ==> (exists j int :: 0 <= j && j < len(modifyFuncs) && modifyFuncs[j] == f)
+//@   ensures every-listed-attempted: err == nil && config.Enabled() && (exists i int :: 0 <= i && i < len(image.Files()) && !datawkt.Exists(image.Files()[i].Path())) ==> (forall j int :: 0 <= j && j < len(modifyFuncs) ==> ghost.cbCalls[modifyFuncs[j]] > old(ghost.cbCalls)[modifyFuncs[j]])
+//@   loop 0 invariant forall f ref :: ghost.cbCalls[f] != old(ghost.cbCalls)[f] ==> (exists j int :: 0 <= j && j < len(modifyFuncs) && modifyFuncs[j] == f)
+//@   loop 0 invariant forall f ref :: ghost.cbCalls[f] >= old(ghost.cbCalls)[f]
+//@   loop 0 invariant (exists i int :: 0 <= i && i < $i0 && !datawkt.Exists(image.Files()[i].Path())) ==> (forall j int :: 0 <= j && j < len(modifyFuncs) ==> ghost.cbCalls[modifyFuncs[j]] > old(ghost.cbCalls)[modifyFuncs[j]])
+//@   loop 1 invariant forall f ref :: ghost.cbCalls[f] != old(ghost.cbCalls)[f] ==> (exists j int :: 0 <= j && j < len(modifyFuncs) && modifyFuncs[j] == f)
+//@   loop 1 invariant forall f ref :: ghost.cbCalls[f] >= old(ghost.cbCalls)[f]
+//@   loop 1 invariant (exists i int :: 0 <= i && i < $i0 && !datawkt.Exists(image.Files()[i].Path())) ==> (forall j int :: 0 <= j && j < len(modifyFuncs) ==> ghost.cbCalls[modifyFuncs[j]] > old(ghost.cbCalls)[modifyFuncs[j]])
+//@   loop 1 invariant forall j int :: 0 <= j && j < $i ==> ghost.cbCalls[modifyFuncs[j]] > old(ghost.cbCalls)[modifyFuncs[j]]
 //@   loop 0 invariant forall x ref :: x in ghost.cbArg1 && !(x in old(ghost.cbArg1)) ==> (exists i int :: 0 <= i && i < $i0 && x == image.Files()[i] && !datawkt.Exists(image.Files()[i].Path()))
 //@   loop 1 invariant forall x ref :: x in ghost.cbArg1 && !(x in old(ghost.cbArg1)) ==> (exists i int :: 0 <= i && i <= $i0 && x == image.Files()[i] && !datawkt.Exists(image.Files()[i].Path()))
 //@   loop 1 invariant $i0 < len(image.Files()) && imageFile == image.Files()[$i0] && !datawkt.Exists(imageFile.Path())
